@@ -53,11 +53,48 @@ C12Verdict(r) ==
      ELSE IF r.held # <<>> /\ \E k \in 1..Len(r.held) : r.held[k] > r.cap THEN "held-back-unbounded"
      ELSE "ok"
 
-Verdict(r) == C12Verdict(r)
+----------------------------------------------------------------------------
+\* C20: serial stream = segments [kind ("valid"|"corrupt"|"trunc"|"noise"), head, fill, n, tail, token]
+\* (bytes of a segment = head \o fill repeated n times \o tail; long noise runs stay compact)
+SegEdge(sg) == sg.head \o (IF sg.n > 0 THEN <<sg.fill, sg.fill>> ELSE <<>>) \o sg.tail
+HasMarker(bs, M1, M2) == \E k \in 1..(Len(bs) - 1) : bs[k] = M1 /\ bs[k + 1] = M2
+Disturbance(sg) == sg.kind \in {"corrupt", "trunc", "noise"}
+\* the maximal run of disturbance segments directly before position i (as in MC_Resync)
+RECURSIVE RunBefore(_, _)
+RunBefore(segs, i) == IF i < 1 \/ ~Disturbance(segs[i]) THEN <<>> ELSE RunBefore(segs, i - 1) \o SegEdge(segs[i])
+RECURSIVE RunStart(_, _)
+RunStart(segs, i) == IF i < 1 \/ ~Disturbance(segs[i]) THEN i + 1 ELSE RunStart(segs, i - 1)
+CtxBefore(segs, j) == IF j > 1 THEN LET e == SegEdge(segs[j - 1]) IN <<e[Len(e)]>> ELSE <<>>
+\* the packet at i is preceded by nothing, or by noise that neither contains the start marker nor
+\* completes one across its borders (the packet itself begins with the marker)
+QuietBefore(segs, i, M1, M2) ==
+  ~HasMarker(CtxBefore(segs, RunStart(segs, i - 1)) \o RunBefore(segs, i - 1) \o <<M1>>, M1, M2)
+MayLose(segs, i, M1, M2) == RunBefore(segs, i - 1) # <<>> /\ ~QuietBefore(segs, i, M1, M2)
+
+C20Verdict(r) ==
+  LET valid == {i \in 1..Len(r.segs) : r.segs[i].kind = "valid"}
+      toks == {r.segs[i].token : i \in valid}
+      got == {r.delivered[j] : j \in 1..Len(r.delivered)}
+      missing == {i \in valid : r.segs[i].token \notin got}
+  IN IF r.spin THEN "loop-monopolised"
+     ELSE IF \E j \in 1..Len(r.delivered) : r.delivered[j] \notin toks THEN "delivered-corrupt-or-unsent-packet"
+     ELSE IF \E i, j \in 1..Len(r.delivered) : i < j /\ r.delivered[i] >= r.delivered[j] THEN "duplicate-or-out-of-order"
+     ELSE IF \E i \in missing : QuietBefore(r.segs, i, r.disc.M1, r.disc.M2) THEN "lost-after-marker-free-noise"
+     ELSE IF \E i \in missing : ~MayLose(r.segs, i, r.disc.M1, r.disc.M2) THEN "lost-more-than-the-first-packet-after-noise"
+     ELSE IF \E k \in 1..Len(r.held) : r.held[k] > r.cap THEN "held-back-unbounded"
+     ELSE "ok"
+
+\* conformance with the framing model (DRIFT only): what MarkerReadB emits for these reads
+C20Model(r) ==
+  LET em == Flat(FoldReads(r.disc, <<>>, r.chunks, 1)) IN NonZero(TokensOf(em, r.packets, r.tokens, 1))
+
+Verdict(r) == IF IOEnv.MODE = "C20" THEN C20Verdict(r) ELSE C12Verdict(r)
+Drift(r) == IOEnv.MODE = "C20" /\ r.chunks # <<>> /\ C20Model(r) # r.delivered
 
 Verdicts ==
   LET idx == SelectSeq([k \in 1..Len(Recs) |-> k], LAMBDA k : Verdict(Recs[k]) # "ok")
-  IN [n |-> Len(Recs), bad |-> [j \in 1..Len(idx) |-> [k |-> idx[j], c |-> Verdict(Recs[idx[j]])]]]
+      dr == SelectSeq([k \in 1..Len(Recs) |-> k], LAMBDA k : Drift(Recs[k]))
+  IN [n |-> Len(Recs), bad |-> [j \in 1..Len(idx) |-> [k |-> idx[j], c |-> Verdict(Recs[idx[j]])]], drift |-> dr]
 
 VARIABLE done
 Init == done = FALSE
